@@ -34,7 +34,11 @@ def gen_actions(rnd, k, nprogs, nloci, allow, maxacts=3):
         elif kind == 'postpast':
             acts.append(['postpast'])
         elif kind == 'unpost':
-            acts.append(['unpost', rnd.randrange(0, 6), rnd.random() < 0.5])
+            # fatal is three-valued: True, False, or None = the plain call unpostEvent(id) (the default decides); one draw, as ever
+            k, r = rnd.randrange(0, 6), rnd.random()
+            acts.append(['unpost', k, None if r < 0.2 else r < 0.5])
+        elif kind == 'peek':
+            acts.append(['peek'])
         elif kind == 'query':
             acts.append(['query', rnd.randrange(0, 6)])
         elif kind in ('ladd', 'ldiscard'):
@@ -70,7 +74,7 @@ def gen_table(rnd, dynamics, allow=None, nprocs=None, maxtime=None, maxacts=3, s
                             'p': rnd.choice(ps), 'prog': rnd.randrange(nprogs)})
         setup = []
         if setup_posts:
-            sa = [a for a in allow if a in ('post', 'unpost', 'query', 'postpast')] or ['post']
+            sa = [a for a in allow if a in ('post', 'unpost', 'query', 'postpast', 'peek')] or ['post']
             setup = gen_actions(rnd, -1, nprogs, nloci, sa + ['postrep'], maxacts=3)
         procs.append({'events': evs, 'setup': setup})
     pallow = allow + (['postrep'] if rep_in_progs else [])
@@ -116,7 +120,8 @@ def c_action(a):
     if k == 'postpast':
         return 'APostPast'
     if k == 'unpost':
-        return '(AUnpost %s %s)' % (L.nat(a[1]), L.b(a[2]))
+        # fatal left out (None): the plain call, whose documented default is fatal=True
+        return '(AUnpost %s %s)' % (L.nat(a[1]), L.b(a[2] if len(a) > 2 and a[2] is not None else True))
     if k == 'query':
         return '(AQuery %s)' % L.nat(a[1])
     if k == 'ladd':
@@ -138,13 +143,18 @@ def c_elem(e):
     return '(EN %s)' % L.z(e)
 
 
+def model_actions(acts):
+    """the actions the kernel model knows: 'peek' (Dynamics.nextPendingEventTime, no observable effect) is left out"""
+    return [a for a in acts if a[0] != 'peek']
+
+
 def c_table(tb):
     loci = L.lst(['(%s, %s)' % (L.nat(l['owner']), L.lst(l['init'], c_elem)) for l in tb['loci']])
     procs = L.lst(['{| p_events := %s; p_setup := %s |}' % (
         L.lst(['{| ev_elem := %s; ev_locus := %s; ev_p := %s; ev_prog := %s |}' % (
             L.b(e['kind'] == 'elem'), L.nat(e['locus']), L.q(e['p']), L.nat(e['prog'])) for e in p['events']]),
-        L.lst(p['setup'], c_action)) for p in tb['procs']])
-    progs = L.lst(['(static %s)' % L.lst(pr, c_action) for pr in tb['progs']])
+        L.lst(model_actions(p['setup']), c_action)) for p in tb['procs']])
+    progs = L.lst(['(static %s)' % L.lst(model_actions(pr), c_action) for pr in tb['progs']])
     return '{| t_maxtime := %s; t_loci := %s; t_procs := %s; t_progs := %s; t_world := tt; t_equil := fun _ _ => false |}' % (L.q(tb['maxtime']), loci, procs, progs)
 
 
@@ -196,7 +206,7 @@ def to_coq(case, obs):
             'o_time := %s; o_events := %s; o_steps := %s; o_ok := %s |}') % (
         c_table(case['table']), L.b(case['dynamics'] == 'synchronous'),
         L.lst(obs['rands'], L.q), L.lst(obs['lns'], L.q), L.lst([max(0, d) for d in obs['draws']], L.nat),
-        L.lst(obs['obs'], c_obs), L.q(obs['time'] if ok else 0), L.nat(obs['events'] if ok else 0),
+        L.lst([o for o in obs['obs'] if o[0] != 'peek'], c_obs), L.q(obs['time'] if ok else 0), L.nat(obs['events'] if ok else 0),
         L.nat(obs['steps'] if ok else 0), L.b(ok))
 
 
